@@ -45,7 +45,7 @@ def cases(tier, seed):
     fam = [with_sensors(d) for d in space.family_cse(tier)]
     for d in fam:
         yield {"kind": "py", "def": d, "seed": seed, "per_symbol": 2 if tier == "quick" else 3}
-    sub = fam[::3] if tier == "quick" else fam
+    sub = (fam[::3] + [d for d in fam if "manytemps" in d["name"] and d not in fam[::3]]) if tier == "quick" else fam
     for d in sub:
         yield {"kind": "cpp", "def": d, "seed": seed}
 
